@@ -129,4 +129,11 @@ def better_repr(v) -> str:
         return inner if isinstance(v, set) else "frozenset(%s)" % inner
     # TODO: elif deal with dicts
     else:
-        return repr(v)
+        try:
+            return repr(v)
+        except ValueError:
+            if isinstance(v, int):
+                # Python 3.11+ refuses to convert a huge int to decimal
+                # ("Exceeds the limit (4300 digits) for integer string conversion")
+                return hex(v)
+            raise
